@@ -817,3 +817,56 @@ func genNestedRO(r *rand.Rand, id string, tier string) string {
 	}
 	return "nestedro | " + parent.String() + " | " + strings.Join(calls, " ; ")
 }
+
+// ---------------------------------------------------------------------------
+// stream `freepol` (C17): "Free makes the handle zero unless the instance is read-only" - whatever the instance is busy with.
+// A PushPolicy frees a COPY of the handle of its own stack while Push is running (with the mutex enabled Push holds the
+// stack's lock at that moment); the copy must become zero without an error, the original goes on as if nothing had happened.
+//
+//	<stack literal> | <values>       ->   free=z<IsZero>e<error> init=<original still initialised> len=<Len afterwards>
+
+func init() {
+	streams["freepol"] = &stream{gen: genFreePol, run: runFreePol}
+}
+
+func genFreePol(r *rand.Rand, id string, tier string) string {
+	c := Cfg{Kind: kinds(r), Mtx: r.Intn(3) != 0, Fifo: r.Intn(3) == 0}
+	if r.Intn(2) == 0 {
+		c.Cap = 1 + r.Intn(5)
+	}
+	n0 := r.Intn(4)
+	if c.Cap != 0 && n0 > c.Cap {
+		n0 = c.Cap
+	}
+	st := V{T: 'K', Form: "n", Cfg: c}
+	for i := 0; i < n0; i++ {
+		st.Xs = append(st.Xs, V{T: 'i', I: int64(i + 1)})
+	}
+	var vs []string
+	for i, n := 0, r.Intn(4); i < n; i++ {
+		vs = append(vs, V{T: 'i', I: int64(10 + i)}.String())
+	}
+	return st.String() + " | " + strings.Join(vs, " ")
+}
+
+func runFreePol(payload string) string {
+	parts := strings.SplitN(payload, " | ", 2)
+	v, _ := parseV(strings.Fields(parts[0]))
+	s := BuildStack(v)
+	rec := "-"
+	s.SetPushPolicy(func(x ...any) error {
+		h := s // a copy of the handle: the same instance
+		err := h.Free()
+		rec = "z" + b01(h.IsZero()) + "e" + b01(err != nil)
+		return nil
+	})
+	var vals []any
+	if len(parts) > 1 {
+		for _, t := range strings.Fields(parts[1]) {
+			x, _ := parseV([]string{t})
+			vals = append(vals, Build(x))
+		}
+	}
+	s.Push(vals...)
+	return fmt.Sprintf("free=%s init=%s len=%d", rec, b01(s.IsInit()), s.Len())
+}
